@@ -103,7 +103,7 @@ def custom_run(ctx, res, cw):
         res.cov["evaluations"] += 1
         for f in sync_findings(meta, blocks): viol.append((p, meta, f))
         lines = [l for l in open(p).read().splitlines() if l != "edges on"]
-        for (kind, k, mode) in F.fault_points(ctx, tot):
+        for (kind, k, mode) in F.fault_points(ctx, tot, exhaustive=meta.get("exhaustive", False)):
             fl = f"fault {kind} {k}" + (f" {mode}" if mode else "")
             cw.add([fl] + lines, dict(meta, fault=fl, base=p))
     fpaths = [p for p in cw.paths if p not in set(base_paths) and p not in pre]
